@@ -40,7 +40,7 @@ def warm():
 
 # ============================================================================= environments
 def draw_env(rng, tool, force_stdin=False):
-    ins = ["path"] + (["dash", "default"] if tool in STDIN_OK else [])
+    ins = ["path", "fifo"] + (["dash", "default"] if tool in STDIN_OK else [])
     outs = ["path"] + (["dash", "default"] if tool in STDOUT_OK else [])
     for _ in range(50):
         if force_stdin and tool in STDIN_OK:
@@ -51,7 +51,13 @@ def draw_env(rng, tool, force_stdin=False):
         pre = rng.choice((1, 100, 10_000, 1_000_000)) if ok == "path" and rng.random() < 0.35 else 0
         e = Env(ik, ok, rng.choice(CHUNK_KINDS), rng.choice(CHUNK_KINDS),
                 rng.getrandbits(32), rng.getrandbits(32), pre,
-                unbuf=(ok != "path" and rng.random() < 0.1))
+                unbuf=(ok != "path" and rng.random() < 0.1),
+                names=rng.choice((0, 0, 0, 1, 2, 3, 4)),
+                spell=rng.getrandbits(30) if rng.random() < 0.3 else 0,
+                late_opts=rng.random() < 0.15,
+                inplace=(tool == "veftopng" and rng.random() < 0.2))
+        if e.inplace:
+            e.in_kind, e.out_kind = "path", "path"
         if env_valid(tool, e):
             return e
     return Env()
@@ -159,7 +165,7 @@ def c19_execute(case, plan, env, budget_scale=None):
     if budget_scale:
         budget = max(100_000, int(decsim.step_budget(case.tool, case.opts, data) * budget_scale))
     run = simulate(case.tool, case.opts, data, env, damaged=dmg, boundaries=case.offsets(),
-                   budget=budget)
+                   budget=budget, wall=4 if budget_scale else None)
     verdict, cls = c19_classify(case.tool, data, run)
     return data, dmg, eff, run, verdict, cls
 
@@ -251,9 +257,9 @@ def c19_minimise(arg):
             if still(p2, env):
                 plan, changed = p2, True
                 break
-    # 2. simplest environment
-    for e2 in (Env(), Env(env.in_kind, env.out_kind), Env(env.in_kind, "path", env.in_chunk,
-                                                            "whole", env.in_seed, 0)):
+    # 2. simplest environment (not for hangs: every attempt may cost the whole backstop)
+    for e2 in (() if cls == "hang" else (Env(), Env(env.in_kind, env.out_kind),
+                                          Env(env.in_kind, "path", env.in_chunk, "whole", env.in_seed, 0))):
         if env_valid(case.tool, e2) and e2.to_json() != env.to_json() and \
                 not any(f["kind"] == "pipe_eof" for f in plan) and still(plan, e2):
             env = e2
@@ -505,36 +511,62 @@ def real_cli(tool, opts, data, env, tmpdir):
     """Run the real CLI with real files and a real pipe; returns (success, out_bytes|None)."""
     import subprocess
     from . import PYTHON
-    inp = os.path.join(tmpdir, "in.img")
-    outp = os.path.join(tmpdir, "out.png" if tool == "veftopng" else "out.img")
-    for p in (inp, outp):
-        if os.path.exists(p):
-            os.remove(p)
-    argv = list(opts)
+    from .decsim import paths_for, spell_argv
+    si, so = paths_for(tool, env.names)
+
+    def real(pth):     # the simulated name mapped under the scratch directory
+        if pth.startswith("/simfs/"):
+            return os.path.normpath(os.path.join(tmpdir, "root", pth[len("/simfs/"):]))
+        return os.path.join(tmpdir, "cwd", pth)
+    os.makedirs(os.path.join(tmpdir, "cwd"), exist_ok=True)
+    inp, outp = real(si), real(so)
+    for p_ in (inp, outp):
+        os.makedirs(os.path.dirname(p_), exist_ok=True)
+        if os.path.exists(p_):
+            os.remove(p_)
+    argv = spell_argv(tool, opts, env.spell)
+    pos = []
     stdin = None
+    if env.inplace:
+        inp, si = outp, so
+    feeder = None
     if env.in_kind == "path":
         with open(inp, "wb") as f:
             f.write(data)
-        argv.append(inp)
+        pos.append(inp if si.startswith("/") else si)
+    elif env.in_kind == "fifo":
+        import threading
+        os.mkfifo(inp)
+
+        def feed():
+            try:
+                with open(inp, "wb") as f:
+                    f.write(data)
+            except OSError:
+                pass
+        feeder = threading.Thread(target=feed, daemon=True)
+        feeder.start()
+        pos.append(inp if si.startswith("/") else si)
     else:
         stdin = data
         if env.in_kind == "dash":
-            argv.append("-")
+            pos.append("-")
     if env.out_kind == "path":
-        argv.append(outp)
-        if env.out_pre:
+        pos.append(outp if so.startswith("/") else so)
+        if env.out_pre and not env.inplace:
             import random as _r
             with open(outp, "wb") as f:
                 f.write(_r.Random(env.out_seed).randbytes(env.out_pre))
     elif env.out_kind == "dash":
-        argv.append("-")
+        pos.append("-")
+    argv = pos + argv if env.late_opts and pos else argv + pos
     envv = dict(os.environ, PYTHONPATH=REPO, PYTHONDONTWRITEBYTECODE="1")
     envv.pop("PYTHONUNBUFFERED", None)
     if env.unbuf:
         envv["PYTHONUNBUFFERED"] = "1"
     try:
         p = subprocess.run([PYTHON, "-m", "coco." + tool] + argv, input=stdin if stdin is not None else b"",
-                           capture_output=True, env=envv, cwd=tmpdir, timeout=120)
+                           capture_output=True, env=envv, cwd=os.path.join(tmpdir, "cwd"), timeout=120)
     except subprocess.TimeoutExpired:
         for q in (inp, outp):
             if os.path.exists(q):
@@ -550,6 +582,13 @@ def real_cli(tool, opts, data, env, tmpdir):
     ok = p.returncode == 0
     if ok and out is None and tool == "maxtoppm":
         ok = False
+    if feeder is not None and feeder.is_alive():
+        try:                                   # the tool never opened the pipe: release the writer
+            fd = os.open(inp, os.O_RDONLY | os.O_NONBLOCK)
+            os.close(fd)
+        except OSError:
+            pass
+        feeder.join(5)
     for q in (inp, outp):
         if os.path.exists(q):
             os.remove(q)
